@@ -151,10 +151,20 @@ namespace rpc {
                                 }
                                 if (ret == -1) {
                                     // or just timed out
+                                    size_t erased;
                                     {
                                         SCOPED_LOCK(m_mutex_map);
-                                        m_map.erase(args.tag);
+                                        erased = m_map.erase(args.tag);
                                         m_cond_collected.notify_one();
+                                    }
+                                    if (erased == 0) {
+                                        // the reader has already taken this context out of
+                                        // the map and is collecting the response into it, so
+                                        // it is not ours to abandon any more: wait until it
+                                        // has been collected (the reader then interrupts us)
+                                        while (args.phase != OooPhase::COLLECTED)
+                                            m_wait.wait(args.phaselock);
+                                        return args.ret;
                                     }
                                     LOG_ERROR_RETURN(ETIMEDOUT, -1, "waiting for completion timeout");
                                 }
